@@ -6,29 +6,36 @@ SR = "channel::reliable::SendChannelReliable"
 def rules(t):
     out = []
     f = t.fn("SendChannelReliable::get_packets_to_send")
-    gates = [x for x in t.sites(f) if x.node["k"] == "call" and "PartialOrd" in callee_name(x.node) and "resend_time" in fmt(t.arg(x, 1)) + fmt(t.arg(x, 0))]
-    r = RuleResult("C15.a", "every reliable emission is behind the resend gate `now - last_sent < resend_time -> skip` (and `acked[i] -> skip` for slices)", floor=2)
+    r = RuleResult("C15.a", "every reliable emission is behind the resend gate: never sent before, or `now - last_sent >= resend_time` (and `!acked[i]` for slices)", floor=2)
     emits = [c for c in t.calls(r"Vec.*::push$", f) if "Bytes::clone" in fmt(t.arg(c, 1)) or "ReliableSlice" in fmt(t.arg(c, 1))]
+    is_age = lambda a: ("Duration::sub" in fmt(a) or " Sub " in fmt(a)) and "current_time" in fmt(a) and "last_sent" in fmt(a)
+    is_rt = lambda b: fmt(strip(b)).endswith(".resend_time") or "resend_time" in fmt(b)[-14:]
+    # first transmission: last_sent is None
+    none_edges = set()
+    for br in t.branches(f):
+        if br["kind"] == "discr" and "last_sent" in fmt(br["on"]) and "current_time" not in fmt(br["on"]):
+            if 0 in br["targets"]: none_edges.add((br["bb"], br["targets"][0]))
+            elif 1 in br["targets"]: none_edges.add((br["bb"], br["otherwise"]))
+    pass_edges = {e for e, br in rel_edges(t, f, is_age, is_rt, "Ge", also=none_edges)} | none_edges
+    early_edges = {e for e, br in rel_edges(t, f, is_age, is_rt, "Lt")}
+    # `last_sent.is_some_and(|sent| now - sent < resend_time)`: the false edge is "never sent, or old enough"
+    for br in t.find_callcond(f, r"Option.*::is_some_and$|::is_some_and$"):
+        if "last_sent" not in fmt(br["cond"][2][0]): continue
+        cl = [g for g in fn_and_closures(t, f) if g is not f and short(g.path).split("::")[-1] in fmt(br["cond"][2][1])]
+        for g in cl:
+            ret = resolved(t, g.origin_of_local(0), g)
+            c = t.norm_cond(strip(ret))
+            if c[0] == "cmp" and ((c[1] == "Lt" and "current_time" in fmt(c[2]) and is_rt(c[3])) or (c[1] == "Gt" and is_rt(c[2]) and "current_time" in fmt(c[3]))):
+                pass_edges.add(br["f_edge"]); early_edges.add(br["t_edge"])
+    from rules.netcode_common import reachable_avoiding
+    reach = reachable_avoiding(f, 0, pass_edges)
     for c in emits:
         r.site(c, fmt(t.arg(c, 1))[:40])
-        # the emission must not be reachable from the "too early" edge of a gate
-        ok = False
-        for g in gates:
-            if method_of(callee_name(g.node)) != "lt": continue
-            brs = [br for br in t.branches(f) if br["kind"] == "bool" and br["cond"][0] == "cmp" and norm(br["raw"]) == norm(f.call_origin(g.node))]
-            for br in brs:
-                early = br["t_edge"]
-                # `continue` on the early edge: emission block not reachable from it without re-entering the loop head (approximation: emission not dominated by early edge, and dominated by gate block or by the None-edge of last_sent)
-                if not t.edge_dominates(f, early, c.bb) and (f.dominates(br["bb"], c.bb) or True):
-                    reach_wo = f.reachable_from([br["f_edge"][1]])
-                    if c.bb in reach_wo: ok = True
-        if not ok: r.bad(f"gate|{fmt(t.arg(c,1))[:20]}", c, "emission not controlled by a resend gate")
+        if c.bb in reach: r.bad(f"gate|{'slice' if 'ReliableSlice' in fmt(t.arg(c, 1)) else 'small'}", c, "a reliable message/slice can be emitted on a path that passed neither `last_sent is None` nor `now - last_sent >= resend_time`: it is retransmitted before resend_time")
         if "ReliableSlice" in fmt(t.arg(c, 1)):
             ab = [br for br in t.branches(f) if br["kind"] == "bool" and "acked" in fmt(br["raw"]) and "::index(" in fmt(br["raw"])]
             if not any(t.edge_dominates(f, br["f_edge"], c.bb) for br in ab): r.bad("acked", c, "slice emitted without the `acked[i]` test")
-    for g in gates:
-        if method_of(callee_name(g.node)) != "lt" or "Sub" not in fmt(t.arg(g, 0)) and "sub" not in fmt(t.arg(g, 0)): r.bad("gate-shape", g, f"resend gate changed: {method_of(callee_name(g.node))}({fmt(t.arg(g,0))[:40]}, ..)")
-    if len(gates) < 2: r.bad("gate-count", None, f"{len(gates)} resend gate(s) found, expected one for small messages and one for slices")
+    if not pass_edges - {e for e in pass_edges if False} or not early_edges: r.bad("gate-missing", None, "no resend gate comparing `now - last_sent` with resend_time found")
     out.append(r)
     r = RuleResult("C15.b", "after an emission the element's timer is set to the current time", floor=2)
     refresh = []
@@ -39,23 +46,34 @@ def rules(t):
         r.site(c)
         if not any(f.dominates(c.bb, x.bb) or f.dominates(x.bb, c.bb) for x in refresh): r.bad(f"refresh|{fmt(t.arg(c,1))[:20]}", c, "emission without refreshing last_sent")
     out.append(r)
-    r = RuleResult("C15.c", "slices are marked acked only by process_slice_message_ack; packets older than 3 s leave sent_packets", floor=2)
+    r = RuleResult("C15.c", "slices are marked acked only by process_slice_message_ack; sent-packet records leave sent_packets only once `current_time - sent_at >= horizon`", floor=2)
     for f2 in t.fns(r"^renet::channel::reliable"):
         for s in t.sites(f2):
             n = s.node
-            if n["k"] == "assign" and n["place"]["proj"] and "acked" in fmt(t.place(s)) and "index_mut(" in fmt(t.place(s)) and fmt(t.stored(s)) == "1":
+            mark = n["k"] == "assign" and n["place"]["proj"] and "acked" in fmt(t.place(s)) and "index_mut(" in fmt(t.place(s)) and fmt(t.stored(s)) == "1"
+            tas = n["k"] == "call" and method_of(callee_name(n)) == "replace" and "mem::replace" in callee_name(n) and "acked" in fmt(t.arg(s, 0)) and "index_mut(" in fmt(t.arg(s, 0)) and const_eval(t.arg(s, 1)) == 1
+            if mark or tas:
                 r.site(s)
-                if not f2.path.endswith("::process_slice_message_ack"): r.bad(f"{f2.path}|acked-writer", s, "acked flag set outside the slice ack handler")
+                if not owner_fn(t, f2).path.endswith("::process_slice_message_ack"): r.bad(f"{f2.path}|acked-writer", s, "acked flag set outside the slice ack handler")
     u = t.fn("RenetClient::update")
-    ge = [x for x in t.sites(u) if x.node["k"] == "call" and "PartialOrd" in callee_name(x.node) and "sent_at" in fmt(t.arg(x, 0))]
-    for x in ge:
-        r.site(x)
-        if method_of(callee_name(x.node)) != "ge": r.bad("horizon-op", x, "sent-packet horizon predicate changed")
-        a0 = strip(t.arg(x, 0))
+    is_age = lambda a: ("Duration::sub" in fmt(a) or " Sub " in fmt(a)) and "sent_at" in fmt(a)
+    old = list(rel_edges(t, u, is_age, lambda b: True, "Ge"))
+    for e, br in old:
+        r.site(Site(u, br["bb"], 0, u.blocks[br["bb"]]["term"]), "horizon test")
         # the age of a sent packet is `self.current_time - sent_at` (the clock already advanced by this update, counted once)
-        if isinstance(a0, tuple) and a0[0] == "call" and "sub" in a0[1].lower() and a0[2]:
-            if not fmt(strip(a0[2][0])).endswith(".current_time"): r.bad("horizon-clock", x, f"packet age is computed from {fmt(a0[2][0])[:60]} instead of the connection clock: records younger than 3 s can be dropped, so a late ack no longer stops the retransmission")
-    if not ge: r.bad("horizon", None, "no sent-packet horizon")
+        for side in (br["cond"][2], br["cond"][3]):
+            a0 = strip(side)
+            if is_age(side) and isinstance(a0, tuple) and a0[0] == "call" and a0[2] and not fmt(strip(a0[2][0])).endswith(".current_time"):
+                r.bad("horizon-clock", Site(u, br["bb"], 0, u.blocks[br["bb"]]["term"]), f"packet age is computed from {fmt(a0[2][0])[:60]} instead of the connection clock: records younger than the horizon can be dropped, so a late ack no longer stops the retransmission")
+    if not old: r.bad("horizon", None, "no `current_time - sent_at >= horizon` test in update(): sent-packet records are never (or always) discarded")
+    rem = list(t.effects("sent_packets", {"remove"}, u)) + [c for c in t.calls(r"OccupiedEntry.*::remove$|::remove_entry$", u) if "sent_packets" in fmt(t.arg(c, 0))]
+    for c in rem: r.site(c, "record removed")
+    if not rem: r.bad("horizon-remove", None, "update() does not remove old sent-packet records")
+    for c in rem:
+        direct = any(t.edge_dominates(u, e, c.bb) for e, br in old)
+        keys = fmt(t.arg(c, 1)) if len(c.node["args"]) > 1 else ""
+        collected = [p_ for p_ in t.calls(r"Vec.*::push$", u) if any(t.edge_dominates(u, e, p_.bb) for e, br in old)]
+        if not direct and not collected: r.bad("horizon-dom", c, "a sent-packet record is removed on a path that did not establish `current_time - sent_at >= horizon`")
     out.append(r)
     return out
 
